@@ -1046,15 +1046,12 @@ theorem reentry_equiv (r : Reentry) (s : Shadow) : reentryResolves r s = Spec.re
 theorem reentry_global (r : Reentry) (s : Shadow) (h : r ≠ .ottoEval) : reentryResolves r s = .global := by
   cases r <;> first | rfl | exact absurd rfl h
 
-/-- Outside the listed regions every API edge case gives the specified result (in particular: no Go panic). -/
-theorem api_cases (c : ApiCase) (h : Spec.Dev.apiRegion c = none) : apiModel c = Spec.apiSpec c := by
-  cases c <;> first | rfl | (simp [Spec.Dev.apiRegion] at h)
+/-- Every API edge case gives the specified result – in particular none ends in a Go panic. -/
+theorem api_cases (c : ApiCase) : apiModel c = Spec.apiSpec c := by
+  cases c <;> rfl
 
-theorem api_no_panic (c : ApiCase) (h : Spec.Dev.apiRegion c = none) : apiModel c ≠ .goPanic := by
-  cases c <;> first | (simp [Spec.Dev.apiRegion] at h; done) | (simp [apiModel])
-
-example : apiModel .runThrowToStringHostThrows = .goPanic ∧ Spec.apiSpec .runThrowToStringHostThrows = .errPlain := ⟨rfl, rfl⟩
-example : apiModel .setZeroObject = .goPanic ∧ apiModel .setPtrZeroObject = .goPanic := ⟨rfl, rfl⟩
+theorem api_no_panic (c : ApiCase) : apiModel c ≠ .goPanic := by
+  cases c <;> simp [apiModel]
 
 /-! ## Part E: arithmetic on Go values; Copy() -/
 
